@@ -311,6 +311,12 @@ func (c *c20World) doHTTP(q c20Req, idx int) *c20Fail {
 	}
 	body := c20Body(q.BodyLen, idx)
 	wantReply := "reply-to-" + q.Path + "-" + fmt.Sprint(idx)
+	switch idx % 7 {
+	case 3:
+		wantReply = "" // a handler may answer with an empty body
+	case 5:
+		wantReply = "two\r\nlines\r\n"
+	}
 	c20Mu.Lock()
 	c20Calls = nil
 	c20Reply = func(p string) string { return wantReply }
